@@ -7,6 +7,7 @@ import faulthandler
 import hashlib
 import importlib
 import io
+import itertools
 import json
 import os
 import subprocess
@@ -14,6 +15,7 @@ import sys
 import time
 import traceback
 
+from . import env as simenv
 from . import findings
 from .tape import Tape, derive_seed
 
@@ -75,11 +77,39 @@ def run_index(eng, pid, verif_seed, idx, tier):
     case = eng.gen_case(wtape, tier)
     if case is None:
         return {"discarded": True, "violations": [], "probes": {}}
+    env = simenv.gen_env(wtape)  # drawn after the case, so that the case itself is what it always was
+    if env:
+        case["env"] = env
     eseed = derive_seed(verif_seed, pid, idx, "exec")
-    out = eng.run_case(case, exec_seed=eseed)
+    out = run_case(eng, case, exec_seed=eseed)
+    if env:
+        out.setdefault("probes", {})
+        for k in env:
+            out["probes"][f"env:{k}"] = out["probes"].get(f"env:{k}", 0) + 1
     out["case"] = case
     out["exec_seed"] = eseed
     return out
+
+
+def _keep_env(cands, case):
+    """Engine simplifications rebuild cases; the environment travels with them."""
+    env = case.get("env")
+    for c in cands:
+        if env and "env" not in c:
+            c = dict(c, env=env)
+        yield c
+
+
+def run_case(eng, case, **kw):
+    """Execute a case inside its environment (sim/env.py)."""
+    simenv.set_env(case.get("env"))
+    try:
+        if simenv.get("stdout"):
+            with contextlib.redirect_stdout(simenv.stdout_sink()):
+                return eng.run_case(case, **kw)
+        return eng.run_case(case, **kw)
+    finally:
+        simenv.set_env(None)
 
 
 # ---------------------------------------------------------------------------- shrinking
@@ -93,7 +123,7 @@ def shrink(eng, case, tape, target, budget_s=25.0, max_tries=400):
         tries += 1
         try:
             with quiet():
-                out = eng.run_case(c, exec_tape=tp)
+                out = run_case(eng, c, exec_tape=tp)
         except Exception:  # noqa: BLE001 - a candidate that breaks the harness is not a reproduction
             return None
         for v in out["violations"]:
@@ -113,7 +143,7 @@ def shrink(eng, case, tape, target, budget_s=25.0, max_tries=400):
     progress = True
     while progress and not over():
         progress = False
-        for cand in eng.simplify(best_case):
+        for cand in itertools.chain(simenv.simplify(best_case), _keep_env(eng.simplify(best_case), best_case)):
             if over():
                 break
             o = still(cand, best_tape)
@@ -185,7 +215,7 @@ def replay_file(path):
         body = json.load(f)
     eng = engine(body["property"])
     with quiet():
-        out = eng.run_case(body["case"], exec_tape=body["exec_tape"])
+        out = run_case(eng, body["case"], exec_tape=body["exec_tape"])
     exp = (body["expect"]["oracle"], body["expect"]["kind"])
     rep = any(vclass(v) == exp for v in out["violations"])
     if rep and body.get("digest") and out.get("digest") != body["digest"]:
@@ -249,6 +279,8 @@ def worker_main(argv):
                 continue
             seen_classes.add(fkey)
             case, tape = v.get("case", out["case"]), v.get("exec_tape", out["exec_tape"])
+            if out["case"].get("env") and "env" not in case:
+                case = dict(case, env=out["case"]["env"])  # plan-cases built by the engine inherit the environment
             try:
                 if n_minimised < 6:
                     n_minimised += 1
@@ -257,7 +289,7 @@ def worker_main(argv):
                     scase, stape = case, tape
                     agg["probes"]["violation_not_minimised"] += 1
                 with quiet():
-                    fin = eng.run_case(scase, exec_tape=stape)
+                    fin = run_case(eng, scase, exec_tape=stape)
                 fv = next((x for x in fin["violations"] if vclass(x) == cls), None)
                 if fv is None:
                     raise HarnessError(f"violation {cls} did not reproduce in-process after shrinking")
